@@ -763,6 +763,7 @@ def check(tier, seed, procs):
         'bounds': {
             'names': f'{names} names: DESIGN.md list + extras + every string of length <= {2 if tier == "quick" else 3} over '
                      f'{ALPHA_QUICK if tier == "quick" else ALPHA_THOROUGH}' + ('' if tier == 'quick' else ' + every single character U+0000..U+024F')
+                     + ' + special code points FEFF FFFE FFFF 2028 2029 00AD 200B D7FF E000 FFFD 10000 10FFFF 0085 each alone / first / middle / last'
                      + '; each as field name and genome name in 7 type contexts; every ordered pair of the listed names as a 2-field struct (2 contexts)',
             'structure': [{'config': c[0], 'prims': list(c[1]), 'genomes': c[2], 'field_names': c[3], 'max_depth': c[4],
                            'constructors': 'array set interval ndarray(1,2) dict tuple(0..2) struct(0..2 distinct names)'} for c in cfgs],
